@@ -1100,7 +1100,7 @@ def source_audit():
     bad = []
     pat = re.compile(r"\bCell<|RefCell|Atomic[A-Z]|static\s+mut|thread_local|\bunsafe\b|\bRc<|\bArc<|\brand::|Mutex|RwLock|OnceCell|lazy_static|SystemTime|Instant::")
     n_last = 0
-    for root, _, files in os.walk("/repo/src"):
+    for root, _, files in os.walk(os.path.join(core.REPO, "src")):
         for f in files:
             if not f.endswith(".rs") or f in ("plot.rs", "test_data.rs"):
                 continue
